@@ -4,10 +4,10 @@ CONSTANTS
   MaxBuf = 3
   Sizes = {1, 2, 3}
   InitSizes = {0, 2}
-  MaxSteps = 7
-  WithWriteDirect = TRUE
+  MaxSteps = 5
+  WithWriteDirect = FALSE
   WithAppend = TRUE
-  Dev_AppendKeepsTail = FALSE
+  Dev_AppendKeepsTail = TRUE
 INIT Init
 NEXT Next_
 VIEW ViewNoLast
